@@ -42,6 +42,7 @@ RULE = (
     "break; distinct by hash of (configuration, table)."
     "Readings overlap: the plain round trip is read while another reading of the same text begun earlier ends after its first row; 12-30 overlap scenarios (short reading / long-cell reading, three orders) run each in a freshly forked process. Writers also get iterators and generators."
     "Magic cells include the DOS end-of-file mark and byte order mark look-alikes, also as the last row."
+    "The path round trip uses names of compressed files and archives too; tables of 2 rows x 255 ... 100000 cells go through the plain writer and reader."
 )
 ASSUMPTIONS = [
     "tables are rectangular with 1-4 columns: a row without cells is written as an empty line, which is not a table "
